@@ -58,6 +58,10 @@ fn config(args: &[String]) -> BatchConfig {
         verif_dir: verif_dir(),
         evidence_path: None,
         selftest: !args.iter().any(|a| a == "--no-selftest"),
+        plan_timeout_s: arg_value(args, "--plan-timeout")
+            .or_else(|| std::env::var("VERIF_PLAN_TIMEOUT_S").ok())
+            .and_then(|s| s.parse().ok())
+            .unwrap_or(120.0),
     }
 }
 
